@@ -14,7 +14,7 @@ THEOREMS = ['C14_columns_and_values_aligned', 'C14_every_versioned_column_writte
             'C14_nothing_without_transaction', 'C14_nothing_for_noop_update', 'C14_partial_first_insert',
             'C14_partial_first_update', 'C14_partial_first_delete', 'C14_trigger_program_equals_object_path',
             'C14_one_event', 'C14_hypotheses_decidable', 'C14_full_example', 'C14_example']
-RULE = ('(P) random model configurations (1-6 columns, 1-2 key columns, excluded subsets, validity on/off, tracker on/off, '
+RULE = ('(P) random model configurations (1-6 columns, a third of them mapped under another attribute name, 1-2 key columns, excluded subsets, validity on/off, tracker on/off, '
         'custom column / table names, schema) are built on the real code; the text of CreateTriggerFunctionSQL.for_manager is '
         'parsed by a fail-closed parser into the trigger AST and compared structurally with the model generator; the PARSED '
         'program is then executed (texec) on random row-event sequences grouped into transactions (several events per row '
@@ -35,7 +35,10 @@ def gen_cfg(rng):
     npk = rng.choice([1, 1, 2])
     cols = [dict(name='k%d' % j, pk=True, excl=False) for j in range(npk)]
     for j in range(rng.randint(1, 5)):
-        cols.append(dict(name='c%d' % j, pk=False, excl=rng.random() < 0.3))
+        # a third of the columns are mapped under another attribute name (exclusion is configured by ATTRIBUTE name,
+        # the trigger works with COLUMN names)
+        aliased = rng.random() < 0.33
+        cols.append(dict(name='c%d' % j + ('_col' if aliased else ''), key='c%d' % j, pk=False, excl=rng.random() < 0.3))
     custom = rng.random() < 0.4
     return dict(cols=cols, validity=rng.random() < 0.5, tracker=rng.random() < 0.5,
                 names=(['tx_id', 'end_tx_id', 'op_type'] if custom else ['transaction_id', 'end_transaction_id', 'operation_type']),
@@ -109,11 +112,11 @@ def make_build(cfg):
 
     def build(env, Base, opts):
         vo = dict(opts)
-        vo['exclude'] = [c['name'] for c in cfg['cols'] if c['excl']]
+        vo['exclude'] = [c.get('key', c['name']) for c in cfg['cols'] if c['excl']]
         attrs = {'__tablename__': 'm', '__versioned__': vo,
                  '__table_args__': ({'schema': cfg['schema']} if cfg['schema'] else {})}
         for c in cfg['cols']:
-            attrs[c['name']] = sa.Column(sa.Integer, primary_key=c['pk'], autoincrement=False)
+            attrs[c.get('key', c['name'])] = sa.Column(c['name'], sa.Integer, primary_key=c['pk'], autoincrement=False)
         env.target = type('M', (Base,), attrs)
     return build
 
@@ -175,10 +178,11 @@ def sqlite_execute(env, cfg, text, prog, evs):
             run(arm['insert'], old, new, e['tx'])
     txc, endc, opc = cfg['names']
     out = []
+    byname = {c.name: c for c in vt.c}          # by COLUMN name (a column mapped under another attribute name has another key)
     for row in conn.execute(sa.select(vt)).mappings():
-        dat = [[c['name'], row[c['name']]] for c in cfg['cols'] if c['name'] in vt.c]
-        mod = [[c['name'], bool(row[c['name'] + '_mod'])] for c in cfg['cols'] if (c['name'] + '_mod') in vt.c]
-        out.append(dict(tx=row[txc], end=row[endc] if endc in vt.c else None, op=row[opc], dat=dat, mod=mod))
+        dat = [[c['name'], row[byname[c['name']]]] for c in cfg['cols'] if c['name'] in byname]
+        mod = [[c['name'], bool(row[byname[c['name'] + '_mod']])] for c in cfg['cols'] if (c['name'] + '_mod') in byname]
+        out.append(dict(tx=row[byname[txc]], end=row[byname[endc]] if endc in byname else None, op=row[byname[opc]], dat=dat, mod=mod))
     conn.execute(vt.delete())
     conn.commit()
     return out
